@@ -727,7 +727,24 @@ func runOnce(c Case, T time.Duration) (v kit.Verdict) {
 		closedAtReturn, acceptedAtReturn = tl.snapshot()
 		close(closed)
 	}()
-	if !kit.Eventually(T, p.Closing) {
+	returnedOpen := false
+	kit.Eventually(T, func() bool {
+		if p.Closing() {
+			return true
+		}
+		select {
+		case <-closed:
+			// Close() has returned: the closing state was entered before, or never
+			returnedOpen = !p.Closing()
+			return true
+		default:
+			return false
+		}
+	})
+	if returnedOpen {
+		return kit.Failf("C07/shutdown/any/close-returned-without-shutting-down", "Close() returned and the proxy is not in the closing state: %d connection(s) were open, nothing was closed", len(clients))
+	}
+	if !p.Closing() {
 		return kit.Failf("C07/shutdown/any/timeout-closing-state-not-entered", "Closing() still false %v after Close was called", T)
 	}
 	closeReq := g.tick()
